@@ -198,7 +198,12 @@ class Obs:
 
     def fail(self, idx, key, what):
         self.orc_fail.add(idx)
-        self.ctx.failure(key, self.replays[idx], what)
+        rp = self.replays[idx]
+        if isinstance(rp, dict) and rp.get("history"):
+            h = rp["history"]
+            what += (f" - object {rp.get('object')} of a history of {len(h)} steps, after: "
+                     + "; ".join(h[-3:]))[:400]
+        self.ctx.failure(key, rp, what)
 
     def fail_plain(self, key, replay, what, sig):
         """A failure with no model case of its own (exception, malformed result)."""
@@ -316,6 +321,11 @@ class Obs:
             ng = [int(v) for v in g.neighbours(arg)]
         except ValueError:
             ng = None
+        except Exception:
+            if 0 <= idx < n and rep not in ("python int", "numpy.int64 scalar"):
+                self.unsupported[("neighbours", rep)] = self.unsupported.get(("neighbours", rep), 0) + 1
+                return
+            ng = None
         i = self.add(f"GNeigh {cm.coq_z(nrows)} {cm.coq_z(ncols)} {cm.coq_z(idx)} "
                      f"{cm.coq_option(ng, cm.coq_zlist)}",
                      {"call": "neighbours", "shape": [nrows, ncols], "idx": idx, "representation": rep,
@@ -380,13 +390,20 @@ class Obs:
         nrows, ncols, xll, yll, csz = G
         geom = {"nrows": nrows, "ncols": ncols, "xll": xll, "yll": yll, "csz": csz}
         cm.mark(dict(geom, call="xvalues/yvalues", **extra))
-        xv, yv = g.xvalues, g.yvalues
         self.ctx.count(("xvalues", nrows == 1, ncols == 1, bool(extra)))
+        try:
+            xv, yv = g.xvalues, g.yvalues
+        except Exception as e:
+            self.fail_plain("C07/xvalues-yvalues", dict(geom, call="xvalues/yvalues",
+                                                        error=f"{type(e).__name__}: {e}"[:300], **extra),
+                            f"xvalues/yvalues raise {type(e).__name__}: {str(e)[:120]} on the grid {nrows}x{ncols} "
+                            f"xll={xll!r} yll={yll!r} csz={csz!r}", ("xv", "error"))
+            return
         okx = len(xv) == ncols and all(
-            abs(Fr(float(xv[c])) - (Fr(xll) + Fr(csz) * (c + Fr(1, 2)))) <= 1e-12 * (abs(xll) + csz * ncols)
+            math.isfinite(float(xv[c])) and abs(Fr(float(xv[c])) - (Fr(xll) + Fr(csz) * (c + Fr(1, 2)))) <= 1e-12 * (abs(xll) + csz * ncols)
             for c in range(ncols))
         oky = len(yv) == nrows and all(
-            abs(Fr(float(yv[r])) - (Fr(yll) + Fr(csz) * (nrows - 1 - r + Fr(1, 2)))) <= 1e-12 * (abs(yll) + csz * nrows)
+            math.isfinite(float(yv[r])) and abs(Fr(float(yv[r])) - (Fr(yll) + Fr(csz) * (nrows - 1 - r + Fr(1, 2)))) <= 1e-12 * (abs(yll) + csz * nrows)
             for r in range(nrows))
         if not (okx and oky):
             self.fail_plain("C07/xvalues-yvalues",
@@ -396,146 +413,298 @@ class Obs:
                             f"xll={xll!r} yll={yll!r} csz={csz!r}", ("xv",))
 
 
+# ----------------------------------------------------------------------------
+# Object histories ("for any grid geometry" = the geometry the object has when the function is
+# called): ONE Grid object - and the objects derived from it - taken through a sequence of public
+# operations; after every step every live object is observed and must answer for the geometry its
+# public attributes (nrows, ncols, xllcorner, yllcorner, cellsize) show at that moment.
+
+def _new_value(rng, v):
+    """The same number in the types a caller assigns to an attribute."""
+    k = rng.randrange(3)
+    if k == 0 or (k == 2 and float(v) != int(v)):
+        return float(v), "float"
+    if k == 1:
+        return np.float64(v), "numpy.float64"
+    return int(v), "int"
+
+
+def run_history(ctx, obs, rng, hid, nsteps):
+    import copy
+    import pickle
+    from hydrodiy.gis.grid import Grid
+    nrows = rng.choice([1, 2, 3, rng.randint(1, 12)])
+    ncols = rng.choice([1, 2, 3, rng.randint(1, 12)])
+    xll, yll, csz = draw_geometry(rng)
+    objs = [mkgrid(nrows, ncols, xll, yll, csz)]
+    if rng.random() < 0.5:
+        objs[0].data = np.arange(nrows * ncols, dtype=np.float64).reshape(nrows, ncols)
+    trail = [f"g0 = Grid('g', ncols={ncols}, nrows={nrows}, cellsize={csz!r}, xllcorner={xll!r}, yllcorner={yll!r})"]
+
+    def observe(k, full):
+        """All cell functions of object k against its present geometry."""
+        g = objs[k]
+        G = live_geometry(g)
+        n = G[0] * G[1]
+        extra = {"history": list(trail), "object": f"g{k}", "history_id": hid}
+        # cell2coord: array of valid and invalid numbers, and single numbers as scalars
+        ids = sorted(set([-1, 0, n - 1, n] + draw_ids(rng, G, 2, 1, far=False)))
+        name, lim, mk, core = rng.choice(ARRAY_REPS[:2] + [rng.choice(ARRAY_REPS)])
+        if not _fits(ids, lim):
+            name, lim, mk, core = ARRAY_REPS[0]
+        obs.cell2coord(g, G, mk(list(ids)), ids, name, core, extra)
+        for idx in draw_ids(rng, G, 1, 1):
+            name, lim, mk, core = rng.choice(SCALAR_REPS[:2] + [rng.choice(SCALAR_REPS)])
+            if _fits([idx], lim):
+                obs.cell2coord(g, G, mk(idx), [idx], name, core, extra)
+        # coord2cell
+        pts = draw_points(rng, G, 5 if full else 3, 4 if full else 2, special=False)
+        name, mk, core = rng.choice(COORD_REPS[:2] + [rng.choice(COORD_REPS)])
+        arg = mk(np.array(pts, dtype=np.float64))
+        obs.coord2cell(g, G, arg, np.asarray(arg, dtype=np.float64).reshape(-1, 2).tolist(), name, core, extra)
+        # cell2rowcol, neighbours
+        ids = draw_ids(rng, G, 2, 1, far=False)
+        obs.cell2rowcol(g, G, np.array(ids), ids, extra=extra)
+        idx = draw_ids(rng, G, 1, 0)[0] if rng.random() < 0.8 else draw_ids(rng, G, 0, 1, far=False)[0]
+        obs.neighbours(g, G, idx, idx, extra=extra)
+        if full:
+            obs.xyvalues(g, G, extra)
+
+    def quiet(f):
+        """An operation that is not under test here (it only has to leave the cell functions right)."""
+        try:
+            with np.errstate(all="ignore"):
+                return f()
+        except Exception:
+            return None
+
+    observe(0, True)
+    for _step in range(nsteps):
+        k = rng.randrange(len(objs))
+        g = objs[k]
+        nr, nc, xl, yl, cs = live_geometry(g)
+        op = rng.choice(["origin", "origin", "xll", "yll", "cellsize", "cellsize+origin", "shape", "derive", "derive",
+                         "use", "data"])
+        cm.mark({"history": list(trail), "next": op, "object": f"g{k}"})
+        if op in ("origin", "xll", "yll", "cellsize+origin", "cellsize"):
+            if op == "cellsize":
+                m = max(abs(xl), abs(yl))
+                lo = max(1e-4, m / 1e4)
+                ncs = rng.choice([v for v in (1.0, 0.5, 2.0, 0.05, 0.025, 1e-4, 1e4) if v >= lo and v != cs]
+                                 + [10 ** rng.uniform(math.log10(lo), 4)])
+                todo = [("cellsize", ncs)]
+            else:
+                nxl, nyl, ncs = draw_geometry(rng, None if op == "cellsize+origin" else cs)
+                if nxl == xl:
+                    nxl = xl + rng.choice([-3, 1, 7]) * ncs
+                if nyl == yl:
+                    nyl = yl + rng.choice([-5, 2, 11]) * ncs
+                todo = {"origin": [("xllcorner", nxl), ("yllcorner", nyl)], "xll": [("xllcorner", nxl)],
+                        "yll": [("yllcorner", nyl)],
+                        "cellsize+origin": [("cellsize", ncs), ("xllcorner", nxl), ("yllcorner", nyl)]}[op]
+                rng.shuffle(todo)
+            for j, (attr, v) in enumerate(todo):
+                v, tname = _new_value(rng, v)
+                setattr(g, attr, v)
+                trail.append(f"g{k}.{attr} = {tname}({v!r})")
+                # between two assignments the object may be used as well (its geometry is then the
+                # half-updated one; it has to stay inside the quantifier to be observed)
+                if j + 1 < len(todo) and rng.random() < 0.5:
+                    G = live_geometry(g)
+                    if max(abs(G[2]), abs(G[3])) <= 1.0001e4 * G[4]:
+                        observe(k, False)
+        elif op == "shape":
+            nnr = rng.choice([1, 2, 3, rng.randint(1, 12)])
+            nnc = rng.choice([1, 2, 3, rng.randint(1, 12)])
+            try:
+                todo = [("nrows", nnr), ("ncols", nnc)]
+                rng.shuffle(todo)
+                for attr, v in todo:
+                    v = rng.choice([int, np.int64])(v)
+                    setattr(g, attr, v)
+                    trail.append(f"g{k}.{attr} = {type(v).__name__}({int(v)})")
+                g.data = np.zeros((nnr, nnc))
+                trail.append(f"g{k}.data = zeros(({nnr}, {nnc}))")
+            except AttributeError:          # shape attributes that cannot be assigned: not this property's business
+                trail.append(f"(g{k}: nrows/ncols cannot be assigned)")
+        elif op == "derive":
+            how = rng.choice(["clone", "clone", "clone(dtype)", "deepcopy", "copy", "pickle", "from_dict", "clip"])
+            new = None
+            if how == "clone":
+                new = g.clone()
+            elif how == "clone(dtype)":
+                new = quiet(lambda: g.clone(rng.choice([np.float32, np.int32, np.float64])))
+            elif how == "deepcopy":
+                new = copy.deepcopy(g)
+            elif how == "copy":
+                new = copy.copy(g)
+            elif how == "pickle":
+                new = quiet(lambda: pickle.loads(pickle.dumps(g)))
+            elif how == "from_dict":
+                new = quiet(lambda: Grid.from_dict(g.to_dict()))
+            elif how == "clip" and nr * nc > 1:
+                r0, r1 = sorted([rng.randrange(nr), rng.randrange(nr)])
+                c0, c1 = sorted([rng.randrange(nc), rng.randrange(nc)])
+                new = quiet(lambda: g.clip(xl + cs * (c0 + 0.5), yl + cs * (nr - 1 - r1 + 0.5),
+                                           xl + cs * (c1 + 0.5), yl + cs * (nr - 1 - r0 + 0.5)))
+                how = f"clip(columns {c0}..{c1}, rows {r0}..{r1})"
+            if new is not None:
+                if len(objs) < 3:
+                    objs.append(new)
+                    j = len(objs) - 1
+                else:
+                    j = rng.choice([i for i in range(len(objs)) if i != k])
+                    objs[j] = new
+                trail.append(f"g{j} = g{k}.{how}" if how.startswith("cl") else f"g{j} = {how}(g{k})")
+        elif op == "use":
+            what = rng.choice(["slice", "str", "xlim/ylim", "same_geometry", "to_dict", "plot", "xvalues", "yvalues"])
+            if what == "slice":
+                quiet(lambda: g.slice([[xl + cs * 0.3, yl + cs * 0.3], [xl + cs * (nc - 0.3), yl + cs * (nr - 0.3)]]))
+            elif what == "str":
+                quiet(lambda: str(g))
+            elif what == "xlim/ylim":
+                quiet(lambda: (g.xlim, g.ylim, g.shape))
+            elif what == "same_geometry":
+                quiet(lambda: g.same_geometry(objs[0]))
+            elif what == "to_dict":
+                quiet(g.to_dict)
+            elif what == "plot":
+                def plot():
+                    import matplotlib
+                    matplotlib.use("Agg")
+                    import matplotlib.pyplot as plt
+                    fig, ax = plt.subplots()
+                    try:
+                        g.plot(ax)
+                    finally:
+                        plt.close(fig)
+                quiet(plot)
+            elif what == "xvalues":
+                quiet(lambda: g.xvalues)
+            else:
+                quiet(lambda: g.yvalues)
+            trail.append(f"g{k}: {what}")
+        else:
+            what = rng.choice(["fill", "setitem", "data", "nodata"])
+            if what == "fill":
+                quiet(lambda: g.fill(rng.randint(-3, 3)))
+            elif what == "setitem":
+                quiet(lambda: g.__setitem__(rng.randrange(nr * nc), 4.))
+            elif what == "data":
+                quiet(lambda: setattr(g, "data", np.full(g.shape, 2.)))
+            else:
+                quiet(lambda: setattr(g, "nodata", -9999))
+            trail.append(f"g{k}: {what}")
+        # every live object answers for its own present geometry
+        for j in range(len(objs)):
+            observe(j, j == k)
+    return len(trail)
+
+
 def run(ctx):
     ctx.rule = ("integer operations: every shape 1..5 x 1..5 (thorough 1..8) and every cell number -2..n+1 "
-                "(exhaustive); coordinates: random shapes up to 40x40, cell sizes 1e-4..1e4, origins up to 1e4 "
+                "(exhaustive; cell2rowcol / cell2coord also with the number as a scalar of every integer type in turn); "
+                "coordinates: random shapes up to 40x40, cell sizes 1e-4..1e4, origins up to 1e4 "
                 "cells from zero, points inside every sampled footprint (>=1e-9 from edges), on 8 outside "
-                "directions from 1e-9 to 1e6 cells away, NaN/inf; non-trivial = distinct (kind, class) signature")
+                "directions from 1e-9 to 1e6 cells away, NaN/inf; stored representations: cell numbers (valid, "
+                "invalid, +-2^31, +-2^40, int64 limits) as Python int, numpy scalar of every integer type, 0-d array, "
+                "list, tuple, arrays of every integer type / byte order / stride / read-only / object, points as "
+                "nested lists, tuples, Fortran / strided / transposed / big-endian / float32 / longdouble / object "
+                "arrays, single points as 1-d sequences; object histories: one Grid through random sequences of "
+                "geometry-attribute assignments (float / numpy.float64 / int), shape changes, clone / deepcopy / copy "
+                "/ pickle / from_dict / clip, data operations and uses (slice, str, plot, xvalues...), every live "
+                "object observed after every step against its present attributes; non-trivial = distinct "
+                "(kind, class, representation, in-history) signature")
     ctx.trusted = cm.STD_TRUST + ["x86-64 cvttsd2si semantics for out-of-range casts (model returns -1)"]
     ctx.tested_not_proved = ["binary64 rounding never moves a point across a cell edge when it is 1e-9 "
-                             "(relative) away from it - tested with an exact rational oracle"]
+                             "(relative) away from it - tested with an exact rational oracle",
+                             "the Python wrappers hand the object's present geometry and the numbers / points, "
+                             "whatever their stored representation, unchanged to the kernels - tested on "
+                             "representations and object histories"]
     proved = cm.prove_with_kernels(ctx, ["getnxy", "getcoord", "c_coord2cell", "c_cell2rowcol", "c_cell2coord", "c_neighbours"])
     cm.use_impl()
     rng = ctx.rng
-    terms, replays = [], []
-    orc_fail = set()
-
-    def add(term, replay, sig):
-        terms.append(term)
-        replays.append(replay)
-        ctx.count(sig)
-        if len(terms) % 700 == 1:
-            ctx.sample(replay)
-        return len(terms) - 1
-
-    def fail(idx, key, what):
-        orc_fail.add(idx)
-        ctx.failure(key, replays[idx], what)
+    obs = Obs(ctx)
 
     # ---- integer operations, exhaustive on small shapes
     S = ctx.scale(5, 8)
+    turn = 0
     for nrows in range(1, S + 1):
         for ncols in range(1, S + 1):
             g = mkgrid(nrows, ncols, 0., 0., 1.)
+            G = (nrows, ncols, 0., 0., 1.)
             n = nrows * ncols
             ids = list(range(-2, n + 2))
-            rc = g.cell2rowcol(np.array(ids))
-            for idx, (r, c) in zip(ids, rc):
-                i = add(f"GRowcol {cm.coq_z(nrows)} {cm.coq_z(ncols)} {cm.coq_z(idx)} {cm.coq_z(r)} {cm.coq_z(c)}",
-                        {"call": "cell2rowcol", "shape": [nrows, ncols], "idx": idx, "impl": [int(r), int(c)]},
-                        ("rowcol", 0 <= idx < n, nrows == 1, ncols == 1))
-                want = (idx // ncols, idx % ncols) if 0 <= idx < n else (-1, -1)
-                if (int(r), int(c)) != want:
-                    fail(i, "C07/cell2rowcol/wrong", f"cell2rowcol({idx}) on {nrows}x{ncols} -> {(int(r), int(c))}")
+            obs.cell2rowcol(g, G, np.array(ids), ids)
             for idx in ids:
-                try:
-                    ng = [int(v) for v in g.neighbours(idx)]
-                except ValueError:
-                    ng = None
-                i = add(f"GNeigh {cm.coq_z(nrows)} {cm.coq_z(ncols)} {cm.coq_z(idx)} "
-                        f"{cm.coq_option(ng, cm.coq_zlist)}",
-                        {"call": "neighbours", "shape": [nrows, ncols], "idx": idx, "impl": ng},
-                        ("neigh", ng is None, nrows == 1, ncols == 1))
-                if (ng is None) != (not 0 <= idx < n):
-                    fail(i, "C07/neighbours/invalid-cell", f"neighbours({idx}) on {nrows}x{ncols} -> {ng}")
-                elif ng is not None:
-                    r0, c0 = idx // ncols, idx % ncols
-                    want = []
-                    for iy in (-1, 0, 1):
-                        for ix in (-1, 0, 1):
-                            r, c = r0 + iy, c0 + ix
-                            want.append(-1 if (ix == 0 and iy == 0) or not (0 <= r < nrows and 0 <= c < ncols)
-                                        else r * ncols + c)
-                    if ng != want:
-                        fail(i, "C07/neighbours/wrong", f"neighbours({idx}) on {nrows}x{ncols} -> {ng}")
+                obs.neighbours(g, G, idx, idx)
+            # the same numbers one by one, as scalars of every type in turn
+            for idx in ids:
+                for fn in (obs.cell2rowcol, obs.cell2coord):
+                    for _try in range(len(SCALAR_REPS)):
+                        name, lim, mk, core = SCALAR_REPS[turn % len(SCALAR_REPS)]
+                        turn += 1
+                        if _fits([idx], lim):
+                            fn(g, G, mk(idx), [idx], name, core)
+                            break
+                name, lim, mk, core = SCALAR_REPS[turn % len(SCALAR_REPS)]
+                if name != "python int" and _fits([idx], lim):
+                    obs.neighbours(g, G, mk(idx), idx, name)
 
     # ---- coordinates
     ngrids = ctx.scale(60, 600)
     for _ in range(ngrids):
         nrows = rng.choice([1, 2, 3, rng.randint(1, 40)])
         ncols = rng.choice([1, 2, 3, rng.randint(1, 40)])
-        csz = rng.choice([1.0, 0.5, 2.0, 0.05, 10 ** rng.uniform(-4, 4), 0.025, 1e-4, 1e4])
-        off = rng.choice([0, 1, 10, 1e2, 1e4])
-        xll = rng.choice([0.0, rng.uniform(-1, 1) * off * csz, float(round(rng.uniform(-1, 1) * off)) * csz])
-        yll = rng.choice([0.0, rng.uniform(-1, 1) * off * csz, -off * csz])
+        xll, yll, csz = draw_geometry(rng)
         g = mkgrid(nrows, ncols, xll, yll, csz)
         n = nrows * ncols
-        head = f"{cm.coq_z(nrows)} {cm.coq_z(ncols)} {cm.coq_float(xll)} {cm.coq_float(yll)} {cm.coq_float(csz)}"
-        geom = {"nrows": nrows, "ncols": ncols, "xll": xll, "yll": yll, "csz": csz}
+        G = (nrows, ncols, xll, yll, csz)
         # cell2coord of valid and invalid cells
         ids = sorted(set([-1, 0, n - 1, n, n + 3] + [rng.randrange(n) for _ in range(6)]))
-        xy = g.cell2coord(np.array(ids))
-        for idx, (x, y) in zip(ids, xy):
-            i = add(f"GCell2coord {head} {cm.coq_z(idx)} {cm.coq_float(x)} {cm.coq_float(y)}",
-                    dict(geom, call="cell2coord", idx=idx, impl=[float(x), float(y)]),
-                    ("c2c", 0 <= idx < n, nrows == 1, ncols == 1))
-            if 0 <= idx < n:
-                r, c = idx // ncols, idx % ncols
-                ex = Fr(xll) + Fr(csz) * (c + Fr(1, 2))
-                ey = Fr(yll) + Fr(csz) * (nrows - 1 - r + Fr(1, 2))
-                tol = 1e-12 * (abs(xll) + abs(yll) + csz * (nrows + ncols))
-                if not (abs(Fr(float(x)) - ex) <= tol and abs(Fr(float(y)) - ey) <= tol):
-                    fail(i, "C07/cell2coord/not-centre", f"cell2coord({idx}) = {(x, y)} is not the cell centre")
-                back = int(g.coord2cell(np.array([[x, y]]))[0])
-                ctx.count()
-                if back != idx:
-                    fail(i, "C07/roundtrip", f"coord2cell(cell2coord({idx})) = {back}")
-            elif not (math.isnan(x) and math.isnan(y)):
-                fail(i, "C07/cell2coord/invalid-cell", f"cell2coord({idx}) = {(x, y)} for an invalid cell")
+        obs.cell2coord(g, G, np.array(ids), ids)
         # points
-        pts = []
-        for _k in range(10):  # inside footprints
-            r, c = rng.randrange(nrows), rng.randrange(ncols)
-            u = rng.choice([1e-9, 1e-6, 0.5, rng.random(), 1 - 1e-9, 1 - 1e-6])
-            v = rng.choice([1e-9, 1e-6, 0.5, rng.random(), 1 - 1e-9, 1 - 1e-6])
-            pts.append((xll + csz * (c + u), yll + csz * (nrows - 1 - r + v)))
-        for _k in range(16):  # outside, eight directions
-            d = rng.choice([1e-9, 1e-6, 1e-3, 0.3, 0.5, 0.999, 1.0, 1.5, 7.0, 1e3, 1e6])
-            sx, sy = rng.choice([(-1, 0), (1, 0), (0, -1), (0, 1), (-1, -1), (-1, 1), (1, -1), (1, 1)])
-            u, v = rng.random() * ncols, rng.random() * nrows
-            px = xll + csz * (-d if sx < 0 else ncols + d if sx > 0 else u)
-            py = yll + csz * (-d if sy < 0 else nrows + d if sy > 0 else v)
-            pts.append((px, py))
-        pts += [(float("nan"), yll), (xll + csz / 2, float("inf")), (-float("inf"), yll + csz / 2),
-                (1e300, 1e300), (-1e300, yll + csz / 2)]
-        with np.errstate(all="ignore"):
-            got = g.coord2cell(np.array(pts))
-        for (x, y), cell in zip(pts, got):
-            cell = int(cell)
-            want, margin = exact_cell(nrows, ncols, xll, yll, csz, x, y)
-            cls = ("nonfinite" if margin is None else "outside" if want < 0 else "inside",
-                   None if margin is None else margin < 1e-5, nrows == 1, ncols == 1)
-            i = add(f"GCoord2cell {head} {cm.coq_float(x)} {cm.coq_float(y)} {cm.coq_z(cell)}",
-                    dict(geom, call="coord2cell", point=[x, y], impl=cell, exact=want), ("p2c",) + cls)
-            scale = max(abs(xll), abs(yll), abs(x) if math.isfinite(x) else 0,
-                        abs(y) if math.isfinite(y) else 0) / csz
-            safe = margin is None or margin > 1e-9 + 4e-16 * scale
-            if safe and cell != want:
-                side = "outside-maps-to-cell" if want < 0 else "inside-wrong-cell"
-                fail(i, f"C07/coord2cell/{side}",
-                     f"coord2cell({x!r},{y!r}) = {cell}, exact answer {want} "
-                     f"(grid {nrows}x{ncols} xll={xll!r} yll={yll!r} csz={csz!r})")
+        pts = draw_points(rng, G, 10, 16)
+        obs.coord2cell(g, G, np.array(pts), pts)
         # derived properties
-        xv, yv = g.xvalues, g.yvalues
-        ctx.count(("xvalues", nrows == 1, ncols == 1))
-        okx = len(xv) == ncols and all(abs(Fr(float(xv[c])) - (Fr(xll) + Fr(csz) * (c + Fr(1, 2)))) <= 1e-12 * (abs(xll) + csz * ncols)
-                  for c in range(ncols))
-        oky = len(yv) == nrows and all(abs(Fr(float(yv[r])) - (Fr(yll) + Fr(csz) * (nrows - 1 - r + Fr(1, 2)))) <= 1e-12 * (abs(yll) + csz * nrows)
-                  for r in range(nrows))
-        if not (okx and oky):
-            i = add(f"GRowcol 1%Z 1%Z 0%Z 0%Z 0%Z", dict(geom, call="xvalues/yvalues"), ("xv",))
-            fail(i, "C07/xvalues-yvalues", "xvalues/yvalues are not the column/row centres")
+        obs.xyvalues(g, G)
+        # ---- the same questions with the arguments stored in other ways
+        for fn in (obs.cell2coord, obs.cell2rowcol):
+            for name, lim, mk, core in rng.sample(SCALAR_REPS, 3):
+                cand = [i for i in draw_ids(rng, G, 2, 4) if _fits([i], lim)]
+                if cand:
+                    idx = rng.choice(cand)
+                    fn(g, G, mk(idx), [idx], name, core)
+            for name, lim, mk, core in rng.sample(ARRAY_REPS, 2):
+                ids = [i for i in draw_ids(rng, G, rng.randint(0, 3), rng.randint(0, 3)) if _fits([i], lim)]
+                if ids:
+                    rng.shuffle(ids)
+                    fn(g, G, mk(list(ids)), ids, name, core)
+        for name, lim, mk, core in rng.sample(SCALAR_REPS, 2):
+            cand = [i for i in draw_ids(rng, G, 2, 2) if _fits([i], lim)]
+            if cand:
+                idx = rng.choice(cand)
+                obs.neighbours(g, G, mk(idx), idx, name)
+        for name, mk, core in rng.sample(COORD_REPS, 2):
+            sub = rng.sample(pts, 10)
+            arg = mk(np.array(sub, dtype=np.float64))
+            obs.coord2cell(g, G, arg, np.asarray(arg, dtype=np.float64).reshape(-1, 2).tolist(), name, core)
+        name, mk, core = rng.choice(POINT_REPS)
+        x, y = rng.choice(pts[:26])
+        obs.coord2cell(g, G, mk(x, y), [(x, y)], name, core)
 
+    # ---- object histories
+    nhist = ctx.scale(16, 120)
+    nsteps_run = 0
+    for hid in range(nhist):
+        nsteps_run += run_history(ctx, obs, rng, hid, rng.randint(4, 9))
+    ctx.notes["histories_run"] = nhist
+    ctx.notes["history_steps"] = nsteps_run
+    ctx.obligation("object histories ran (generator not degenerate)", nsteps_run >= 4 * nhist)
+    if obs.unsupported:
+        ctx.notes["representations_refused"] = {f"{k[0]}: {k[1]}": v for k, v in sorted(obs.unsupported.items())}
+
+    terms, replays, orc_fail = obs.terms, obs.replays, obs.orc_fail
     bad, nshards, failed = cm.run_case_files(PID, HEADER, "gcase", "g_ok", terms, shard=1500)
     ctx.notes["correspondence_cases"] = len(terms)
     ctx.notes["correspondence_mismatches"] = len(bad)
